@@ -1,18 +1,30 @@
 //! The harness's own `UnsizedTypeDataAccess`: a buffer with `orig + 10240` capacity that ERRORS on
 //! over-growth (like `AccountInfo`; the stock `TestUnderlyingData` panics), supports a refusal schedule
-//! for growing reallocs (C06's fault model) and carries a canary behind the capacity.
+//! for growing reallocs (C06's fault model) and is surrounded by memory the code must never touch:
+//! * `Backing::Vec` (C01/C02/C06): canaries in front of and behind the capacity;
+//! * `Backing::Guard` (C03): an `mmap`ed region flush against a `PROT_NONE` page on one side (two
+//!   layouts), neighbour-account images / canaries in the readable slack on the other side.
+use hx_common::guard::GuardBuf;
 use star_frame::prelude::ProgramError;
 use star_frame::unsize::wrapper::{DataMutDrop, UnsizedDataMut, UnsizedTypeDataAccess};
-use std::cell::{Cell, UnsafeCell};
+use std::cell::{Cell, RefCell};
 
 pub const MAX_INCREASE: usize = 10240;
 pub const CANARY: usize = 12 * 1024;
 /// guard in front of the data (a pointer shifted the wrong way writes here, not into the heap)
 pub const FRONT: usize = 4 * 1024;
 pub const CANARY_BYTE: u8 = 0xEE;
+/// content of the not-yet-owned part `[orig, orig+10240)` of a guard-backed buffer
+pub const UNOWNED_BYTE: u8 = 0xC3;
+
+enum Backing {
+    Vec(#[allow(dead_code)] Vec<u8>),
+    Guard(GuardBuf),
+}
 
 pub struct Access {
-    buf: UnsafeCell<Vec<u8>>,
+    backing: Backing,
+    base: *mut u8,
     len: Cell<usize>,
     pub orig: usize,
     /// number of growing realloc calls so far in the case (1-based index of the last one)
@@ -24,6 +36,15 @@ pub struct Access {
     pub limit_now: Cell<bool>,
     /// number of successful reallocs (grow or shrink) since the last `begin_op`
     pub reallocs_now: Cell<u32>,
+    /// (old_len, new_len, succeeded) of every realloc call since the last `begin_op`
+    pub realloc_log: RefCell<Vec<(usize, usize, bool)>>,
+}
+
+/// Everything that must not change outside the owned range.
+pub struct Frame {
+    alloc: Vec<u8>,
+    before: Vec<u8>,
+    after: Vec<u8>,
 }
 
 struct Guard;
@@ -40,8 +61,41 @@ impl Access {
         for b in &mut v[..FRONT] {
             *b = CANARY_BYTE;
         }
+        let base = unsafe { v.as_mut_ptr().add(FRONT) };
+        Access::with(Backing::Vec(v), base, orig, refuse)
+    }
+
+    /// Guard-page backed (C03). `end_aligned`: the allocation end sits directly before a PROT_NONE page,
+    /// else the data start sits directly after one. The readable slack on the other side holds a
+    /// neighbour-account image.
+    pub fn new_guard(initial: &[u8], refuse: Vec<u32>, end_aligned: bool) -> Access {
+        let orig = initial.len();
+        let cap = orig + MAX_INCREASE;
+        let g = GuardBuf::new(cap, end_aligned);
+        g.fill_slack(0x5A);
+        let base = g.ptr;
+        unsafe {
+            std::ptr::copy_nonoverlapping(initial.as_ptr(), base, orig);
+            std::ptr::write_bytes(base.add(orig), UNOWNED_BYTE, MAX_INCREASE);
+            // neighbour-account images in the slack: recognisable, position dependent bytes
+            let (b, a) = g.slack();
+            let (bl, al) = (b.len(), a.len());
+            for i in 0..bl {
+                // counted from the edge adjacent to the buffer
+                let d = bl - 1 - i;
+                *base.sub(bl).add(i) = b"PREV-ACCOUNT-IMAGE/"[d % 19] ^ ((d / 19) as u8).wrapping_mul(37);
+            }
+            for i in 0..al {
+                *base.add(cap + i) = b"NEXT-ACCOUNT-IMAGE/"[i % 19] ^ ((i / 19) as u8).wrapping_mul(41);
+            }
+        }
+        Access::with(Backing::Guard(g), base, orig, refuse)
+    }
+
+    fn with(backing: Backing, base: *mut u8, orig: usize, refuse: Vec<u32>) -> Access {
         Access {
-            buf: UnsafeCell::new(v),
+            backing,
+            base,
             len: Cell::new(orig),
             orig,
             grow_calls: Cell::new(0),
@@ -49,6 +103,7 @@ impl Access {
             refused_now: Cell::new(false),
             limit_now: Cell::new(false),
             reallocs_now: Cell::new(0),
+            realloc_log: RefCell::new(vec![]),
         }
     }
     pub fn cap(&self) -> usize {
@@ -57,22 +112,50 @@ impl Access {
     pub fn len(&self) -> usize {
         self.len.get()
     }
+    pub fn base_addr(&self) -> usize {
+        self.base as usize
+    }
     fn base(&self) -> *mut u8 {
-        unsafe { (*self.buf.get()).as_mut_ptr().add(FRONT) }
+        self.base
     }
     /// copy of data[0..len)
     pub fn bytes(&self) -> Vec<u8> {
         unsafe { std::slice::from_raw_parts(self.base(), self.len.get()).to_vec() }
     }
+    fn slack(&self) -> (&[u8], &[u8]) {
+        match &self.backing {
+            Backing::Vec(_) => unsafe {
+                (std::slice::from_raw_parts(self.base().sub(FRONT), FRONT), std::slice::from_raw_parts(self.base().add(self.cap()), CANARY))
+            },
+            Backing::Guard(g) => g.slack(),
+        }
+    }
     pub fn canary_ok(&self) -> bool {
-        let s = unsafe { std::slice::from_raw_parts(self.base().add(self.cap()), CANARY) };
-        let f = unsafe { std::slice::from_raw_parts(self.base().sub(FRONT), FRONT) };
-        s.iter().all(|b| *b == CANARY_BYTE) && f.iter().all(|b| *b == CANARY_BYTE)
+        match &self.backing {
+            Backing::Vec(_) => {
+                let (f, s) = self.slack();
+                s.iter().all(|b| *b == CANARY_BYTE) && f.iter().all(|b| *b == CANARY_BYTE)
+            }
+            // guard-backed buffers are checked through `Frame`
+            Backing::Guard(_) => true,
+        }
+    }
+    pub fn snapshot(&self) -> Frame {
+        let (b, a) = self.slack();
+        Frame { alloc: unsafe { std::slice::from_raw_parts(self.base(), self.cap()).to_vec() }, before: b.to_vec(), after: a.to_vec() }
+    }
+    /// everything at offsets `>= from` of the allocation and all of the slack equal to the snapshot?
+    pub fn frame_ok(&self, snap: &Frame, from: usize) -> bool {
+        let (b, a) = self.slack();
+        let alloc = unsafe { std::slice::from_raw_parts(self.base(), self.cap()) };
+        let from = from.min(self.cap());
+        b == &snap.before[..] && a == &snap.after[..] && alloc[from..] == snap.alloc[from..]
     }
     pub fn begin_op(&self) {
         self.refused_now.set(false);
         self.limit_now.set(false);
         self.reallocs_now.set(0);
+        self.realloc_log.borrow_mut().clear();
     }
 }
 
@@ -84,10 +167,12 @@ unsafe impl UnsizedTypeDataAccess for Access {
             this.grow_calls.set(g);
             if this.refuse.contains(&g) {
                 this.refused_now.set(true);
+                this.realloc_log.borrow_mut().push((cur, new_len, false));
                 return Err(ProgramError::InvalidRealloc.into());
             }
             if new_len > this.cap() {
                 this.limit_now.set(true);
+                this.realloc_log.borrow_mut().push((cur, new_len, false));
                 return Err(ProgramError::InvalidRealloc.into());
             }
             unsafe { std::ptr::write_bytes(this.base().add(cur), 0, new_len - cur) };
@@ -95,6 +180,7 @@ unsafe impl UnsizedTypeDataAccess for Access {
         if new_len != cur {
             this.reallocs_now.set(this.reallocs_now.get() + 1);
         }
+        this.realloc_log.borrow_mut().push((cur, new_len, true));
         this.len.set(new_len);
         *data = std::ptr::slice_from_raw_parts_mut(data.cast::<u8>(), new_len);
         Ok(())
